@@ -8,7 +8,8 @@
    conclusion exhibits the break of the primitive instead (an H collision, or a
    signature that recovers to the victim's address on a hash / with components
    the victim never produced — an ECDSA forgery). *)
-From AQ Require Import Lib.Bytes Lib.Keccak Rlp.RlpSpec Signing.SigningModel Signing.SigningProofs.
+From AQ Require Import Lib.Bytes Lib.Keccak Rlp.RlpSpec Signing.SigningModel Signing.SigningProofs
+  Generated.GenSigners Signing.SigningGen.
 Local Open Scope N_scope.
 
 (* 1. The signing hash covers nonce, price, limit, recipient, value, data and the
@@ -136,12 +137,59 @@ Proof. exact cache_sound. Qed.
 Print Assumptions C12_cache_sound.
 
 (* 6. RLP re-encoding returns the same transaction (hence the same hash and sender,
-      which are functions of it).  JSON: the quantity codec is tied by
-      correspondence only (partial). *)
+      which are functions of it). *)
 Theorem C12_rlp_roundtrip :
   forall t : tx, tx_rlp_wf t -> decode_tx (encode_tx t) = Some t.
 Proof. exact decode_encode_tx. Qed.
 Print Assumptions C12_rlp_roundtrip.
+
+(* 6b. JSON: every quantity field (nonce, gas as hexutil.Uint64: 16 digits; price,
+       value, V, R, S as hexutil.Big: 64 digits) decodes to the value it was
+       encoded from.  encoding/json's object syntax is library code (tied by the
+       direct MarshalJSON/UnmarshalJSON round-trip oracle of the harness). *)
+Theorem C12_json_quantity_roundtrip :
+  forall maxlen n : N, 1 <= maxlen -> n < 16 ^ maxlen -> dec_quantity maxlen (enc_quantity n) = Some n.
+Proof. exact quantity_roundtrip. Qed.
+Print Assumptions C12_json_quantity_roundtrip.
+
+(* 7. Which signer the node applies.  On every probed height of every built-in
+      configuration (table regenerated from the source by the translator on each
+      run) the model's make_signer is the signer types.MakeSigner returns. *)
+Theorem C12_make_signer_spec :
+  forall i h kind cid, In (i, h, kind, cid) gen_signer_probes ->
+    exists x, nth_error gen_signer_configs i = Some x /\
+              signer_code (make_signer (cfg_of x) h) = (kind, cid).
+Proof. exact make_signer_spec. Qed.
+Print Assumptions C12_make_signer_spec.
+
+Theorem C12_make_signer_eip155_iff :
+  forall (cfg : chain_cfg) (n c : N),
+    make_signer cfg n = EIP155 c <-> is_forked (cc_eip155 cfg) n = true /\ c = cc_chain_id cfg.
+Proof. exact make_signer_eip155_iff. Qed.
+Print Assumptions C12_make_signer_eip155_iff.
+
+(* ApplyTransaction / AsMessage at height n, and TxPool.validateTx at any height,
+   attribute a replay-protected transaction only under the node's own chain id
+   (and the state processor only once EIP-155 is active). *)
+Theorem C12_applied_sender_chain :
+  forall H ecrecover (cfg : chain_cfg) (n : N) (t : tx) (a : bytes),
+    sender_signer H ecrecover (make_signer cfg n) t = Ok a ->
+    is_protected_v (t_v t) = true ->
+    is_forked (cc_eip155 cfg) n = true /\ derive_chain_id (t_v t) = cc_chain_id cfg.
+Proof. exact applied_sender_chain. Qed.
+Print Assumptions C12_applied_sender_chain.
+
+Theorem C12_pool_sender_chain :
+  forall H ecrecover (cfg : chain_cfg) (t : tx) (a : bytes),
+    sender_signer H ecrecover (pool_signer cfg) t = Ok a ->
+    is_protected_v (t_v t) = true -> derive_chain_id (t_v t) = cc_chain_id cfg.
+Proof. exact pool_sender_chain. Qed.
+Print Assumptions C12_pool_sender_chain.
+
+Example C12_generated_nonempty :
+  gen_signer_configs <> [] /\ gen_signer_probes <> [] /\
+  forallb (fun x => match cc_eip155 (cfg_of x) with Some _ => true | None => false end) gen_signer_configs = true.
+Proof. exact builtin_configs_protected. Qed.
 
 (* Non-vacuity: the recorded transaction is well-formed in the sense of every
    hypothesis above, and its unmalleated twin has the low S. *)
